@@ -17,6 +17,7 @@ type seededMeta struct {
 	Property   string   `json:"property"`
 	DetectedBy []string `json:"detected_by"` // properties whose check reports it ([] = not detectable by this family)
 	Rules      []string `json:"rules"`
+	SilentFor  []string `json:"silent_for"` // behaviour-preserving changes: these checks must stay silent
 }
 
 // overlayFor applies a patch to scratch copies of the files it touches and
@@ -75,13 +76,18 @@ func SelfTest(c *Ctx, p *Property) {
 		if err != nil || json.Unmarshal(b, &m) != nil {
 			continue
 		}
-		want := false
+		want, silent := false, false
 		for _, d := range m.DetectedBy {
 			if d == c.Prop {
 				want = true
 			}
 		}
-		if !want {
+		for _, d := range m.SilentFor {
+			if d == c.Prop {
+				silent = true
+			}
+		}
+		if !want && !silent {
 			continue
 		}
 		id := filepath.Base(filepath.Dir(mf))
@@ -112,6 +118,14 @@ func SelfTest(c *Ctx, p *Property) {
 			rs = append(rs, fmt.Sprintf("%s×%d", r, k))
 		}
 		sort.Strings(rs)
+		if silent {
+			if len(rs) == 0 && len(sub.R.Fatal) == 0 {
+				c.R.Ok("SELFTEST", "seeded/"+id, "behaviour-preserving refactoring raises no alarm", "", "", true)
+			} else {
+				c.R.Bad("SELFTEST", "seeded/"+id, "behaviour-preserving refactoring raises no alarm", "", "false alarm on a behaviour-preserving change: "+strings.Join(rs, ", ")+strings.Join(sub.R.Fatal, "; "))
+			}
+			continue
+		}
 		if len(rs) == 0 && len(sub.R.Fatal) == 0 {
 			c.R.Bad("SELFTEST", "seeded/"+id, "seeded change is reported", "", "the check stayed silent on a seeded change it is recorded to detect")
 		} else {
